@@ -23,6 +23,40 @@ Theorem C02_same_incarnation_same_pid : forall h a b,
 Proof. exact same_incarnation_same_pid. Qed.
 Print Assumptions C02_same_incarnation_same_pid.
 
+(* objects with different PIDs are never equal and hash differently -- also when the start ticks coincide *)
+Theorem C02_different_pid_not_equal : forall h a b,
+  wf_hist h = true -> has_obj (run h) a = true -> has_obj (run h) b = true ->
+  obj_pid (run h) a <> obj_pid (run h) b ->
+  outcome_of (run h) (EC (EqC a b)) = Val (RBool false)
+  /\ outcome_of (run h) (EC (HashEq a b)) = Val (RHash false true).
+Proof. exact different_pid_not_equal. Qed.
+Print Assumptions C02_different_pid_not_equal.
+
+(* == against something that is not a Process (an int, a tuple equal to the identity, any object): False,
+   nothing changes (any world) *)
+Theorem C02_eq_non_process : forall w o, has_obj w o = true ->
+  outcome_of w (EC (EqOther o)) = Val (RBool false) /\ effects_of w (EC (EqOther o)) = []
+  /\ ms (next w (EC (EqOther o))) = ms w.
+Proof. exact eq_other_false. Qed.
+Print Assumptions C02_eq_non_process.
+
+(* psutil.Popen whose child is gone before the object is built (the only public way to an object without
+   identity): Process(pid) raises, Popen gives an object bound to no process -- ghost = the negative token of
+   its PID, never alive; so by C02_is_running_spec / C02_is_running_monotone is_running() is False for ever, by
+   C02_eq_iff_same_incarnation it equals exactly the other such objects of the same PID (the code's answer; the
+   property text says nothing about objects without a process), and by the C01 theorems every signal/setter on
+   it raises NoSuchProcess without a system call *)
+Theorem C02_popen_gone_child : forall h pid,
+  wf_hist h = true -> 0 <= pid < PID_MAX -> owner (run h) pid = None ->
+  let n := length (objs (ms (run h))) in
+  let w' := next (run h) (EC (NewPopen pid)) in
+  outcome_of (run h) (EC (New pid)) = Exc NoSuchProcess
+  /\ outcome_of (run h) (EC (NewPopen pid)) = Val (RObj n)
+  /\ has_obj w' n = true /\ obj_pid w' n = pid /\ g_inc w' n = -1 - pid
+  /\ alive w' (g_inc w' n) = false.
+Proof. exact popen_gone_child. Qed.
+Print Assumptions C02_popen_gone_child.
+
 (* ... hash(a) == hash(b) exactly then too, and each hash() equals the value it had the first time *)
 Theorem C02_hash_follows_eq : forall h a b,
   wf_hist h = true -> has_obj (run h) a = true -> has_obj (run h) b = true ->
